@@ -60,7 +60,7 @@ if patch != "-":
         print("SEEDRUN setup failed: patch does not apply: " + r.stderr); cleanup(); sys.exit(2)
 # copy /verif (no .git, no evidence history needed); keep build caches
 r = sh("rsync -a --exclude .git --exclude 'seeded' --exclude '.build/C*' --exclude '.build/*.log' /verif/ %s/" % ALT)
-if r.returncode != 0:
+if r.returncode not in (0, 24):          # 24 = files vanished while copying (other builds running): harmless
     print("SEEDRUN setup failed: rsync: " + r.stderr); cleanup(); sys.exit(2)
 # rewrite absolute paths in scripts, harness and translators of the copy
 pat = re.compile(r"/verif(?![A-Za-z0-9_-])")
